@@ -246,6 +246,24 @@ Fixpoint all_match (rules : list G16.Model.rule) (os : list obs) (es : list exch
   | o :: os', e :: es' => obs_matches o (e_exp e) && rules_fields_ok rules (e_req e) o (e_exp e) && all_match rules os' es'
   | _, _ => false
   end.
+(* when the proxy ends the connection although the client still had requests to send, the last response must
+   have told the client so: Connection: close, or a body delimited by the end of the connection, or the client
+   itself asked for / implied the close; a conforming client is not left sending into a closing connection *)
+Definition announces_close (q : req) (o : obs) : bool :=
+  existsb (fun v => has_token v (b "close")) (field_values (b "connection") (o_fields o)) ||
+  q_close q ||
+  (negb (rfc_no_body (q_method q) (o_code o)) &&
+   match field_values (b "content-length") (o_fields o), field_values (b "transfer-encoding") (o_fields o) with
+   | [], [] => true
+   | _, _ => false
+   end).
+Fixpoint last_announces (os : list obs) (es : list exch) : bool :=
+  match os, es with
+  | [o], [e] => announces_close (e_req e) o
+  | _ :: os', _ :: es' => last_announces os' es'
+  | _, _ => true
+  end.
+
 (* oracle: the reference client, reading the connection, consumes exactly one response per
    request, each is what the origin sent, nothing is left over, and every wanted exchange
    was answered unless the proxy closed the connection *)
@@ -257,7 +275,8 @@ Definition ecase_prop_ok (c : ecase) : bool :=
        then (* a response that cannot be completed must be the last thing on the connection *)
             e_closed c
        else negb (nonempty rest) &&
-            ((N.of_nat (length (e_exchs c)) =? e_want c) || (e_closed c && negb (e_must_complete c))))
+            ((N.of_nat (length (e_exchs c)) =? e_want c) ||
+             (e_closed c && negb (e_must_complete c) && last_announces os (e_exchs c))))
   | None => false
   end.
 
@@ -289,7 +308,8 @@ Definition ecase_absent_ok (c : ecase) : bool :=
    7 the connection was kept after a response that could not be completed,
    8 the proxy closed a connection on which every exchange had to be answered,
    9 a configured response-header rule was not applied as documented,
-   10 a request the client never sent reached an origin *)
+   10 a request the client never sent reached an origin,
+   11 the proxy closed the connection after a response that did not announce it *)
 Definition obs_why (o : obs) (x : xexp) : N :=
   if negb ((o_code o =? x_code x) && match x_reason x with Some t => str_eqb (o_reason o) t | None => true end) then 2
   else if negb (forallb (values_match (o_fields o)) (x_fields x)) then 3
@@ -315,7 +335,7 @@ Definition ecase_why (c : ecase) : N :=
       else let w := all_why (e_rules c) os (e_exchs c) in
            if negb (w =? 0) then w
            else if (N.of_nat (length (e_exchs c)) =? e_want c) then 0
-           else if e_closed c then (if e_must_complete c then 8 else 0) else 1
+           else if e_closed c then (if e_must_complete c then 8 else if last_announces os (e_exchs c) then 0 else 11) else 1
   | None => 1
   end.
 
